@@ -501,7 +501,7 @@ let ghost vx_self0 = *self; let ghost vx_alloc0 = *entity_allocator; proof { vx_
 
         self.length -= 1;
 
-        if index + 1 < self.length {
+        if index < self.length {
 
             unsafe {
                 entity_allocator.modify_location_index_unchecked(
